@@ -252,6 +252,42 @@ fn c4_capture_to_end_fault() {
 	c2p_body(true, true);
 }
 
+/// A source that violates the Read contract: it claims more bytes than the buffer holds.
+struct Overclaim {
+	excess: usize,
+}
+impl Read for Overclaim {
+	fn read(&mut self, buf: &mut [u8]) -> io::Result<usize> {
+		let mut i = 0;
+		while i < buf.len() {
+			buf[i] = 0x37;
+			i += 1;
+		}
+		Ok(buf.len() + self.excess)
+	}
+}
+
+/// C2'o: a prefix request against an over-reporting source ends in a clean panic - it never
+/// returns normally with bytes the source did not write (kani::should_panic: a panic and no
+/// memory-safety failure).
+#[kani::proof]
+#[kani::should_panic]
+#[kani::stub(std::io::default_read_to_end, read_to_end_contract)]
+#[kani::unwind(7)]
+fn c2p_overclaim_panics() {
+	let excess: usize = kani::any();
+	kani::assume(excess >= 1 && excess <= 4);
+	let size: usize = kani::any();
+	kani::assume(size >= 1 && size <= 3);
+	let mut r = CaptureReader::new(Overclaim { excess });
+	let res = r.capture_up_to_size(size);
+	// only reachable if the over-report was swallowed; nothing is asserted here, so reaching the
+	// end makes should_panic fail ("no panic"): the captured bytes are not touched because a
+	// length beyond the allocation is exactly what a swallowed over-report produces
+	core::mem::forget(res);
+	core::mem::forget(r);
+}
+
 // ---------------------------------------------------------------------------------------
 // C1: programs of rewinds and partial reads on GuardedCaptureReader<Src> (thorough)
 // ---------------------------------------------------------------------------------------
